@@ -344,6 +344,7 @@ class Outcome:
         violations = 0
         known_hit = []
         replays = []
+        unreproduced = []
         for cls, (b, v) in sorted(firsts.items()):
             lines = gen_plan(b.exe, v['idx'], b.tier, b.env)
             c1, h1 = exec_plan(b.exe, lines, b.tier, b.env, cls.prop)
@@ -361,10 +362,14 @@ class Outcome:
                     nondet = True
                     c1, h1 = hits[0]
                 else:
-                    raise HarnessError('violation %s (run %d of %s) did not reproduce in fresh processes (%d of %d '
-                                       'executions show it): first=%s/%s second=%s/%s' % (
-                                           cls.key(), v['idx'], b.exe, len(hits), len(tries),
-                                           sorted(x.key() for x in c1), h1, sorted(x.key() for x in c2), h2))
+                    # seen in a batch (many runs in one worker process), never alone in a fresh process: either the
+                    # harness carried something from one run to the next, or the code under test did (process-global
+                    # state).  Not believed on its own; see the end of this loop.
+                    unreproduced.append('violation %s (run %d of %s) did not reproduce in fresh processes (%d of %d '
+                                        'executions show it): first=%s/%s second=%s/%s' % (
+                                            cls.key(), v['idx'], b.exe, len(hits), len(tries),
+                                            sorted(x.key() for x in c1), h1, sorted(x.key() for x in c2), h2))
+                    continue
             small, nruns = shrink(b.exe, lines, b.tier, b.env, cls.prop, cls, attempts=3 if nondet else 1)
             c3, h3 = exec_plan(b.exe, small, b.tier, b.env, cls.prop)
             for _ in range(5 if nondet else 0):
@@ -394,6 +399,11 @@ class Outcome:
                 if nondet:
                     print('  note: executions of this plan in fresh processes differ from each other (history digests '
                           'disagree): the code under test is not a function of its inputs here; the replay retries')
+        if unreproduced and not violations and not known_hit:
+            raise HarnessError(unreproduced[0])
+        for u in unreproduced:
+            # other classes of the same check did reproduce: the verdict stands on those; this one is reported as seen
+            print('NOTE (not counted): ' + u)
         self.write_evidence(violations, known_hit, replays)
         sys.stdout.flush()
         return 1 if violations else 0
